@@ -249,6 +249,15 @@ def c04():
     res = []
     res.append(("ns", core.campaign("ns", fam_ns("C04", ["K1b", "K2", "K3", "K5"], scale(20, 200), 40, names), wd)))
     res.append(("io", core.campaign("io", fam_io("C04", ["K1b", "K2", "K4", "K5"], scale(15, 150), 50), wd)))
+    # stamps that do not change: a clock on an even second with no milliseconds, access-date updating on (a read stamps today's date again)
+    rng = rng_for("C04", 5)
+    same = []
+    for p in fam_io("C04", ["K1b", "K2", "K5"], scale(10, 100), 40, salt=5):
+        p["cfg"] = dict(p["cfg"], atime=(rng.random() < 0.6))
+        p["ops"].insert(0, {"op": "clock", "t": [2020, 6, 15, 12, 30, 30, 0]})
+        p["id"] += "-same"
+        same.append(p)
+    res.append(("same-stamps", core.campaign("same-stamps", same, wd)))
     core.finish("C04", LEVEL, res, None, t0,
                 "after every call a clone of the image is mounted afresh and listed/read through the library, and the raw bytes are decoded independently; "
                 "both must equal the model tree (names, kinds, sizes, contents, stamps); extents are read straight from the device",
@@ -569,9 +578,11 @@ def small_foreign(rng, ft=12, **kw):
     if ft == 32:
         vol["hi"] = "pattern"
         vol["free_hi"] = rng.choice([0, 0xA])
-        if vol["nfats"] > 1 and rng.random() < 0.6:
+        if vol["nfats"] > 1 and rng.random() < 0.5:
             vol["mirror"] = False
             vol["active"] = rng.randrange(vol["nfats"])
+        elif rng.random() < 0.6:
+            vol["stale_active"] = rng.randrange(1, 4)      # mirroring enabled: the active-copy nibble must be ignored
     vol.update(kw)
     return vol, bps
 
@@ -617,6 +628,11 @@ def c11():
     for i in range(scale(6, 60)):
         vol, cs = small_foreign(rng, 12)
         progs.append(gen.fill_program(rng, "c11-fill-%d" % i, {"vol": vol, "short": rng.choice([0, rng.randrange(1, 1 << 30)])}, cs, rounds=2))
+    for i in range(scale(10, 100)):
+        vol, cs = small_foreign(rng, 32)
+        progs.append(gen.ns_program(rng, "c11-ns32-%d" % i, {"vol": vol}, 25, gen.NAMES_ASCII))
+        vol, cs = small_foreign(rng, 32)
+        progs.append(gen.io_program(rng, "c11-io32-%d" % i, {"vol": vol}, cs, 25))
     for i in range(scale(12, 120)):
         vol, cs = gen.end_of_table_volume(rng, [12, 16, 32][i % 3])
         progs.append(gen.fill_program(rng, "c11-eot-%d" % i, {"vol": vol, "short": rng.choice([0, 0, rng.randrange(1, 1 << 30)])}, cs, rounds=1,
